@@ -44,6 +44,9 @@ def shards(tier, seed):
             cur, w = [], 0
     if cur:
         packed.append({"items": cur})
+    # one very long segment (beyond 2^16): a structured set of analysis offsets instead of every quarter bin
+    for P in (195, 200):
+        packed.append({"items": [{"P": P, "L": 2 ** 18, "huge": True}]})
     return packed
 
 
@@ -52,7 +55,7 @@ def run_shard(shard):
     out = {"evals": 0, "nontrivial": 0, "failures": [], "samples": [], "extra": {"min_margin_dB": 1e9, "min_margin_dB_real": 1e9}}
     seen = set()
     for it in shard["items"]:
-        r = _one(it["P"], it["L"], it.get("only"))
+        r = _huge(it["P"], it["L"]) if it.get("huge") else _one(it["P"], it["L"], it.get("only"))
         out["evals"] += r["evals"]
         out["nontrivial"] += r["evals"]
         out["extra"]["min_margin_dB"] = min(out["extra"]["min_margin_dB"], r["margin"])
@@ -70,6 +73,42 @@ def run_shard(shard):
 
 def replay(case):
     return run_shard({"items": [case]})["failures"]
+
+
+def _huge(P, L):
+    """L = 2^18: complex line at L/4+0.3 and at L/8+0.7 bins; analysis offsets: the first 20 bins beyond the main lobe in quarter
+    bins, and +-6 bins around every power of two from 2^5 to 2^17, around multiples of 65536 and around L/3, L/5, L/7."""
+    alpha = refwin.kaiser_alpha_ref(float(P))
+    m = float(np.sqrt(1 + alpha * alpha))
+    fs = 1.0
+    n = np.arange(L)
+    thr = 10 ** (-(P - 1) / 10.0)
+    res = {"evals": 0, "failures": [], "margin": 1e9, "margin_real": 1e9, "sample": {"P": P, "L": L, "huge": True}}
+    cent = [2.0 ** k for k in range(5, 18)] + [65536.0 * j for j in (1, 2, 3)] + [L / 3.0, L / 5.0, L / 7.0]
+    offs = sorted({m + k / 4.0 for k in range(81)} | {c + d for c in cent for d in range(-6, 7) if c + d > m})
+    for b0, phi in ((L / 4 + 0.3, 0.7), (L / 8 + 0.7, 2.0)):
+        xc = np.cos(2 * np.pi * b0 * n / L + phi)
+        xs = np.sin(2 * np.pi * b0 * n / L + phi)
+        an2 = ana.make_analyzer(np.stack([xc, xs]), fs, win="kaiser", psll=float(P), order=-1, olap=0.0, backend="numba")
+
+        def resp(b):
+            r = an2.compute_single_bin(b * fs / L, L=L)
+            return float(r.XX[0] + r.YY[0] + 2.0 * np.imag(r.XY[0]))
+
+        R0 = resp(b0)
+        for d, sgn in itertools.product(offs, (1, -1)):
+            b = b0 + sgn * d
+            if b < 0 or b > L / 2:
+                continue
+            ratio = resp(b) / R0 if R0 > 0 else np.inf
+            res["evals"] += 1
+            res["margin"] = min(res["margin"], 10 * np.log10(thr / max(ratio, 1e-300)))
+            if not (ratio <= thr):
+                key = f"line-huge/P={P}"
+                if not res["failures"]:
+                    res["failures"].append(fw.fail(key, f"{key}: L={L} f0={b0:.4f} bins: response at offset {sgn * d:+.2f} bins is {10 * np.log10(max(ratio, 1e-300)):.2f} dB, required <= -{P - 1} dB",
+                                                   {"P": P, "L": L, "huge": True}))
+    return res
 
 
 def _one(P, L, only=None):
